@@ -27,7 +27,7 @@ TIE = {
  'C20': 'T2 with fact predicates replaced by registered Python generators (explicit/inferred/variadic, yield True/False, raising)',
 }
 PARTIAL = {
- 'C01': ' Body-level (Theorem A) and program-level correctness are proved for the clause activation the generated code performs, and that activation is proved observationally equal to the textbook activation (same recorded answers and ending) for well-formed engine states and queries over allocated variables, unless a run is cut off by the fuel or creates a cyclic term; well-formedness is proved to be an invariant of the API. The printed Python text is covered by Theorem B (a Lean semantics of the emitted Python subset; the printed def = the compiled predicate, for the model engine without hypotheses); that this semantics is CPython\'s is checked by ties T2p and T2q, not proved; that the reference semantics is standard Prolog is checked against an independent interpreter (T5), not proved.',
+ 'C01': ' Body-level (Theorem A) and program-level correctness are proved for the clause activation the generated code performs, and that activation is proved observationally equal to the textbook activation (same recorded answers and ending) for well-formed engine states and queries over allocated variables, unless a run is cut off by the fuel or creates a cyclic term; well-formedness is proved to be an invariant of the API. The printed Python text is covered by Theorem B (a Lean semantics of the emitted Python subset; the printed def = the compiled predicate, for the model engine without hypotheses); that this semantics is CPython\'s is checked by ties T2p and T2q, not proved; that the reference semantics is standard Prolog is checked against an independent interpreter (T5); for the Horn fragment it is proved sound (cut included) and, without cut, complete with respect to the logical reading of the program.',
  'C02': ' Most-generality, completeness and soundness of failure are proved for the model (solutions of the heap at the yield = solutions of the starting heap that unify the terms); cyclic bindings and fuel exhaustion are outside; every generated case is also decided against an independent unifier.',
  'C04': ' Interleaving within one engine is proved for the model: whatever the other suspended generators allocate and rebind between two answers of a query, it gives the answers it gives alone (a renaming-and-frame simulation over the whole engine). Partial: threads (preemption inside a step) are outside the push-style model; sampled only.',
  'C17': ' Proved for the model: the limit only cuts (a run that is not cut off is the identical run at every larger limit; the answers recorded with a smaller limit are a prefix of those recorded with a larger one). Partial: the model counts depth in calls, CPython in frames; where the prefix is cut is not predicted. Restoring the interpreter-wide limit is runtime behaviour, checked not proved.',
